@@ -9,7 +9,7 @@ REG_POOL = ['a', 'b', 'x', 'ab', 'sp', 'a1', 'ix', 'mar', 'r0', 'r1', 'hl', 'h']
 MNEMONIC_POOL = ['nop', 'ld', 'ld.b', 'ldx', 'ldi', 'st', 'add', 'addc', 'jmp', 'j', 'mov', 'mov.w', 'inc', 'hlt',
                  'call', 'ret', 'sta', 'b_2', 'cmp', 'out', 'in', 'push', 'pop', 'swap', 'jz', 'jnz', 'st.w']
 MACRO_POOL = ['push2', 'ldw', 'mov2', 'inc2', 'clr', 'jsr', 'ld.w']
-ENUM_KEYS = ['aye', 'bee', 'cee', 'dee', 'zed', 'nz', 'cs']
+ENUM_KEYS = ['aye', 'bee', 'cee', 'dee', 'zed', 'nz', 'cs', 'e0', 'e0.h', 'e0.l', 'nz.x', 'ay']
 LABEL_POOL = ['start', 'loop', 'done', 'data', 'tbl', 'main', 'next', 'fin', 'buf', 'msg', 'vec', 'top', 'end1',
               'isr', 'lda', 'st1', 'ax', 'nopx', 'xnop', 'ldq']
 CONST_POOL = ['K1', 'K2', 'SIZE', 'BASE', 'MASK', 'LIM', 'CNT', 'OFF', 'VAL', 'ZED']
@@ -75,7 +75,7 @@ def gen_isa(rnd, *, want_macros=None, small=False, allow_numeric_enum=False):
                                                   'argument': {'size': 4, 'byte_align': False}}}}
     opsets['imm12'] = {'operand_values': {'imm12': {'type': 'numeric', 'bytecode': {'value': 2, 'size': 4},
                                                     'argument': {'size': 12, 'byte_align': False}}}}
-    enum_keys = rnd.sample(ENUM_KEYS, rnd.randrange(2, 5))
+    enum_keys = rnd.sample(ENUM_KEYS, rnd.randrange(2, 7))
     opsets['enum'] = {'operand_values': {'enum': {'type': 'enumeration', 'bytecode': {
         'size': 3, 'value_dict': {k: i for i, k in enumerate(enum_keys)}}, 'argument': {
         'size': 8, 'byte_align': True, 'value_dict': {k: 0xA0 + i for i, k in enumerate(enum_keys)}}}}}
